@@ -331,10 +331,12 @@ func main() {
 	if run.Thorough() {
 		ringCases(6, plain)
 		unionMemberCycleCases(plain)
+		crossFileCases(plain)
 		scaleCases([]int{8, 16, 32, 64, 128}, plain)
 	} else {
 		ringCases(4, plain)
 		unionMemberCycleCases(plain)
+		crossFileCases(plain)
 		scaleCases([]int{8, 16, 32, 64}, plain)
 	}
 	// identical texts reached by different routes are executed once per (signature, text)
